@@ -16,6 +16,8 @@ METHODS = ['blocks_on', 'blocks_at', 'blocks_on_offset', 'blocks_at_offset']
 
 def run(ctx):
     g = gtirb_from_repo.load()
+    import lookups as _lkd
+    _lkd.deferred_consumption(ctx, g, 'blocks', 'block-lookup:deferred')
     nh, ln = (200, 40) if ctx.quick else (3000, 60)
     hists = []
     for _ in range(nh):
